@@ -80,6 +80,8 @@ pub struct O {
     pub handed_out_answered: Option<bool>,
     pub racing_client: Option<String>,
     pub threads_at_end: Option<usize>,
+    /// trickle scenario: (live threads when the trickle ends, idle period measured, gap used)
+    pub after_trickle: Option<(usize, u64, u64)>,
     pub done: bool,
 }
 
@@ -90,12 +92,94 @@ fn answered(c: &ClientEnd, acc: &mut Vec<u8>) -> bool {
     st.error.is_none() && !st.finals().is_empty() && st.finals()[0].status == 200
 }
 
+/// The trickle scenario (encoded as a history whose first burst has n == 0; its `idle_ms` is
+/// the size of the real burst): light traffic must not keep surplus workers alive.
+///   1. a burst is served and closed; the idle period P of THIS implementation is measured by
+///      watching (passively) when the thread count is back at its baseline;
+///   2. the same burst again; then 40 single connections, one every P/4: with W >= 8 workers
+///      taking turns each of them is used at most every 2P, so the surplus ones have been idle
+///      for longer than P and must be gone when the trickle ends.
+fn trickle_body(n: usize, srv: Srv, obs: Arc<Mutex<O>>) {
+    let addr = srv.addr.clone();
+    let shared: SharedObs = Arc::new(Mutex::new(Obs::default()));
+    let app = {
+        let (s, o) = (srv.server.clone(), shared.clone());
+        thread::spawn_named(Some("app".into()), move || app_thread(s, AppProgram::simple(), o))
+    };
+    ctl::settle();
+    let baseline = ctl::live_threads();
+    obs.lock().unwrap().baseline = baseline;
+    let mut next = 0usize;
+    let mut burst = |k: usize, next: &mut usize| -> usize {
+        let mut cs = Vec::new();
+        for _ in 0..k {
+            let c = connect(&addr, *next, &ConnSpec::default()).expect("connect");
+            let _ = c.send(format!("GET /t{} HTTP/1.1\r\nHost: t\r\n\r\n", *next).as_bytes());
+            *next += 1;
+            cs.push(c);
+        }
+        ctl::settle();
+        let mut ok = 0;
+        for c in cs.iter_mut() {
+            let mut buf = Vec::new();
+            if answered(c, &mut buf) {
+                ok += 1;
+            }
+            c.close();
+        }
+        ctl::settle();
+        ok
+    };
+    let ok = burst(n, &mut next);
+    obs.lock().unwrap().served.push((ok, n));
+    // 1. the idle period of this implementation
+    let mut p_ms = None;
+    for step in 1..=400u64 {
+        ctl::sleep(Duration::from_millis(500));
+        ctl::settle();
+        if ctl::live_threads() <= baseline {
+            p_ms = Some(step * 500);
+            break;
+        }
+    }
+    match p_ms {
+        None => {
+            obs.lock().unwrap().after_idle.push((ctl::live_threads(), 0, 200_000));
+        }
+        Some(p) => {
+            // 2. the burst again, then the trickle
+            let ok = burst(n, &mut next);
+            obs.lock().unwrap().served.push((ok, n));
+            let gap = (p / 4).max(100);
+            let mut served = 0;
+            for _ in 0..40 {
+                served += burst(1, &mut next);
+                ctl::sleep(Duration::from_millis(gap));
+                ctl::settle();
+            }
+            obs.lock().unwrap().served.push((served, 40));
+            let live = ctl::live_threads();
+            obs.lock().unwrap().after_trickle = Some((live, p, gap));
+        }
+    }
+    srv.server.unblock();
+    let _ = app.join();
+    ctl::settle();
+    drop(srv);
+    ctl::settle();
+    finish(&addr, &obs);
+}
+
 pub fn body(sc: Sc, obs: Arc<Mutex<O>>) {
     ctl::window(false);
     ctl::spurious(crate::l2::spurious_now()); // waits may return unnotified (std permits it): a 1-cost deviation
     let srv = start_server();
     let addr = srv.addr.clone();
     ctl::settle();
+    if sc.bursts.first().map_or(false, |b| b.n == 0) {
+        trickle_body(sc.bursts[0].idle_ms as usize, srv, obs);
+        return;
+    }
     if sc.drop_at == DropAt::BeforeAnyConnection {
         ctl::window(true);
         drop(srv);
@@ -296,6 +380,17 @@ pub fn judge(sc: &Sc, o: &O, res: &RunResult) -> Vec<(String, String)> {
             f.push((key.into(), format!("burst {}: {} of {} connections were answered", i, ok, n)));
         }
     }
+    if let Some((live, p, gap)) = o.after_trickle {
+        if live > o.baseline + 1 {
+            f.push((
+                "threads-kept-by-light-traffic".into(),
+                format!(
+                    "{} threads alive (baseline {}) after 40 single connections, one every {} ms: idle workers leave this implementation after {} ms (measured), each worker was needed at most every {} ms, yet the surplus workers of the burst are still there",
+                    live, o.baseline, gap, p, 2 * p
+                ),
+            ));
+        }
+    }
     for (live, open, idle) in &o.after_idle {
         if *live > o.baseline + *open {
             f.push((
@@ -359,6 +454,10 @@ fn items(tier: Tier) -> &'static Vec<(Sc, u32)> {
                     }
                 }
             }
+        }
+        // light traffic after a burst must not keep the surplus workers (default schedule)
+        for n in if thorough { vec![8usize, 12, 32] } else { vec![8usize, 12] } {
+            v.push((Sc { bursts: vec![Burst { n: 0, close: true, idle_ms: n as u64 }], drop_at: DropAt::End, burst_at_retirement: None }, 0));
         }
         // magnitudes (default schedule): a burst far above any plausible ceiling, closed, then a
         // long idle period (all surplus workers reclaimed), then a second one
@@ -437,7 +536,7 @@ impl Check for C20 {
     }
     fn rule(&self, tier: Tier) -> String {
         format!(
-            "histories of 1..{} bursts (3 in both tiers) of N in {:?} connections (each answered; closed or left open) followed by {:?} ms of virtual idleness, at the default schedule; bursts of 300 / 1100 (thorough 2100) connections followed by the long idle period and a further burst; server drop {{before any connection, racing with a connecting client, with a request queued but never received, with a request handed out and answered afterwards, while surplus workers are retiring, at the end}} after histories {{none, 1 closed, 6 closed, 2 open}} with all schedules of at most {} deviations (strict; one less after the longer histories) around the drop; a burst of 1/2/5 arriving exactly when the surplus workers of a burst of 5/6/8 reach their 5 s idle timeout (left open: all must be answered; or closed and followed by 120 s of idleness: threads must be reclaimed), same bound; {} scenarios; oracle: after the drop and quiescence a new connect is refused in every schedule, a handed-out request is still answered and its bytes reach the client, every burst is answered completely, threads alive after 120 s of idleness (far above any sensible idle period; the statement names none) <= baseline + open connections; non-trivial = all",
+            "histories of 1..{} bursts (3 in both tiers) of N in {:?} connections (each answered; closed or left open) followed by {:?} ms of virtual idleness, at the default schedule; a burst of 8 / 12 (thorough 32) whose idle period P is measured passively, then the same burst followed by 40 single connections one every P/4 (each worker needed at most every 2P: the surplus ones must be gone when the trickle ends); bursts of 300 / 1100 (thorough 2100) connections followed by the long idle period and a further burst; server drop {{before any connection, racing with a connecting client, with a request queued but never received, with a request handed out and answered afterwards, while surplus workers are retiring, at the end}} after histories {{none, 1 closed, 6 closed, 2 open}} with all schedules of at most {} deviations (strict; one less after the longer histories) around the drop; a burst of 1/2/5 arriving exactly when the surplus workers of a burst of 5/6/8 reach their 5 s idle timeout (left open: all must be answered; or closed and followed by 120 s of idleness: threads must be reclaimed), same bound; {} scenarios; oracle: after the drop and quiescence a new connect is refused in every schedule, a handed-out request is still answered and its bytes reach the client, every burst is answered completely, threads alive after 120 s of idleness (far above any sensible idle period; the statement names none) <= baseline + open connections; non-trivial = all",
             if tier == Tier::Thorough { 3 } else { 2 }, if tier == Tier::Thorough { vec![1, 4, 5, 8] } else { vec![1, 5, 8] },
             if tier == Tier::Thorough { vec![0, 4900, 5100, 11000, LONG_IDLE_MS] } else { vec![0, 4900, 5100, LONG_IDLE_MS] }, if tier == Tier::Thorough { 2 } else { 1 }, items(tier).len()
         )
